@@ -222,6 +222,10 @@ func drawHistory(t *rapid.T, o HistOpts) History {
 			if chance(t, "absent", 30) {
 				opt.AbsentFilter = rapid.IntRange(1, 3).Draw(t, "absentwhich")
 			}
+			if chance(t, "nosecmask", 30) {
+				// some blocks without a filter section next to blocks that have one
+				opt.NoSectionMask = rapid.IntRange(1, 14).Draw(t, "nosecmaskv")
+			}
 			if o.BigFilters && chance(t, "bigfilters", 50) {
 				// ~1.2-2.4 MB per filter at 1e-6..1e-9: several blocks exceed one 4 MiB chunk
 				opt.FilterPad = rapid.SampledFrom([]int{400000, 700000, 1500000}).Draw(t, "pad")
